@@ -18,8 +18,10 @@ def sh(cmd, **kw):
 def main():
     prop, k = sys.argv[1], sys.argv[2]
     suite = "--suite" in sys.argv
-    src = "/tmp/seed_out/%s/m%s" % (prop, k)
-    dst = os.path.join(VERIF, "seeded", "%s-%s" % (prop, k))
+    base = sys.argv[sys.argv.index("--src") + 1] if "--src" in sys.argv else "/tmp/seed_out"
+    name = sys.argv[sys.argv.index("--as") + 1] if "--as" in sys.argv else k
+    src = "%s/%s/m%s" % (base, prop, k)
+    dst = os.path.join(VERIF, "seeded", "%s-%s" % (prop, name))
     assert os.path.exists(os.path.join(src, "patch.diff")), src
     assert sh("git -C %s status --porcelain" % REPO).stdout.strip() == "", "repo working tree not clean"
     res = {"property": prop, "mutation": int(k)}
